@@ -38,6 +38,9 @@ def configs(tier):
     for P, A in ((2, 2), (2, 3), (3, 2)):
         for inbred in (False, True):
             out.append(dict(group="hom", P=P, A=A, inbred=inbred))
+    # a bi-allelic SNV inside a locus whose read tensor is padded for a tri-allelic neighbour
+    for inbred in (False, True):
+        out.append(dict(group="hom", P=2, A=2, inbred=inbred, pad=1))
     return out
 
 
@@ -307,10 +310,13 @@ def _run_hom(c, col):
     def body(ctx):
         E.cfg.concrete_ints = True
         F = E.fresh_real(ctx, "F", 0, 1) if c["inbred"] else None
-        reads = E.SArray((R, 1, A), float)
+        reads = E.SArray((R, 1, A + c.get("pad", 0)), float)
         raw = {}
         for r in range(R):
-            for a in range(A):
+            for a in range(A + c.get("pad", 0)):
+                if a >= A:
+                    rnp.ndarray.__setitem__(reads, (r, 0, a), 0.0)  # zero-probability non-allele (padding)
+                    continue
                 v = E.fresh_real(ctx, "p%d_%d" % (r, a), 0)
                 rnp.ndarray.__setitem__(reads, (r, 0, a), E.SymReal(v))
                 raw[(r, a)] = v
@@ -400,7 +406,7 @@ def replay(v):
 
         P, A = c["P"], c["A"]
         F = float(m.get("F", 0.3)) if c["inbred"] else 0.0
-        reads = rnp.array([[[float(m.get("p%d_%d" % (r, a), 0.5)) for a in range(A)]] for r in range(2)])
+        reads = rnp.array([[[float(m.get("p%d_%d" % (r, a), 0.5)) if a < A else 0.0 for a in range(A + c.get("pad", 0))]] for r in range(2)])
         out = rmc._homozygosity_probabilities(reads, rnp.array([A], dtype=rnp.int8), P, inbreeding=F, read_counts=rnp.array([2, 1]))
         J = {}
         for g in M.genotypes(A, P):
